@@ -31,7 +31,7 @@ func f8Schedule(r *Run, v6 bool) {
 	var bGot bool
 	var bErr error
 	reaped := false
-	synctest.Test(syncT, func(t *testing.T) {
+	runBubble(func(t *testing.T) {
 		conn := newLabConn()
 		gate := make(chan struct{})
 		parked := make(chan struct{}, 8)
